@@ -8,7 +8,7 @@ use crate::{
 };
 use bytes::Bytes;
 use server_fn::{
-    codec::Post, error::ServerFnError, ContentType, Decodes, Encodes, Format, FormatType, Http,
+    codec::{Patch, Post, Put}, error::ServerFnError, ContentType, Decodes, Encodes, Format, FormatType, Http,
     ServerFn, ServerFnTraitObj,
 };
 use vsexp::{Lst, Num, Sexp};
@@ -19,18 +19,6 @@ impl ContentType for StrEncoding {
 }
 impl FormatType for StrEncoding {
     const FORMAT_TYPE: Format = Format::Text;
-}
-impl Encodes<Glue> for StrEncoding {
-    type Error = std::fmt::Error;
-    fn encode(v: &Glue) -> Result<Bytes, Self::Error> {
-        Ok(Bytes::from(v.s.clone()))
-    }
-}
-impl Decodes<Glue> for StrEncoding {
-    type Error = std::string::FromUtf8Error;
-    fn decode(b: Bytes) -> Result<Glue, Self::Error> {
-        String::from_utf8(b.to_vec()).map(|s| Glue { s })
-    }
 }
 impl Encodes<String> for StrEncoding {
     type Error = std::fmt::Error;
@@ -43,11 +31,6 @@ impl Decodes<String> for StrEncoding {
     fn decode(b: Bytes) -> Result<String, Self::Error> {
         String::from_utf8(b.to_vec())
     }
-}
-
-#[derive(Clone, Debug)]
-pub struct Glue {
-    pub s: String,
 }
 
 /// "E<d><rest>": fail with the error of kind d (0 = the custom error, code = len(rest) mod 256);
@@ -73,22 +56,62 @@ pub fn demo_body(s: &str) -> Result<String, ServerFnError<Code>> {
     Ok(format!("{s}!"))
 }
 
-impl ServerFn for Glue {
-    const PATH: &'static str = "/api/glue";
-    type Client = LoopClient;
-    type Server = LoopServer;
-    type Protocol = Http<Post<StrEncoding>, Post<StrEncoding>>;
-    type Output = String;
-    type Error = ServerFnError<Code>;
-    type InputStreamError = ServerFnError<Code>;
-    type OutputStreamError = ServerFnError<Code>;
+macro_rules! glue_fn {
+    ($name:ident, $path:literal, $wrap:ident) => {
+        #[derive(Clone, Debug)]
+        pub struct $name {
+            pub s: String,
+        }
+        impl Encodes<$name> for StrEncoding {
+            type Error = std::fmt::Error;
+            fn encode(v: &$name) -> Result<Bytes, Self::Error> {
+                Ok(Bytes::from(v.s.clone()))
+            }
+        }
+        impl Decodes<$name> for StrEncoding {
+            type Error = std::string::FromUtf8Error;
+            fn decode(b: Bytes) -> Result<$name, Self::Error> {
+                String::from_utf8(b.to_vec()).map(|s| $name { s })
+            }
+        }
+        impl ServerFn for $name {
+            const PATH: &'static str = $path;
+            type Client = LoopClient;
+            type Server = LoopServer;
+            type Protocol = Http<$wrap<StrEncoding>, $wrap<StrEncoding>>;
+            type Output = String;
+            type Error = ServerFnError<Code>;
+            type InputStreamError = ServerFnError<Code>;
+            type OutputStreamError = ServerFnError<Code>;
 
-    async fn run_body(self) -> Result<String, ServerFnError<Code>> {
-        demo_body(&self.s)
+            async fn run_body(self) -> Result<String, ServerFnError<Code>> {
+                demo_body(&self.s)
+            }
+        }
+        server_fn::inventory::submit! {
+            ServerFnTraitObj::new::<$name>(|req| Box::pin($name::run_on_server(req)))
+        }
+    };
+}
+// the same function behind the three body-carrying method wrappers (post.rs / patch.rs / put.rs)
+glue_fn!(Glue, "/api/glue", Post);
+glue_fn!(GluePatch, "/api/glue_patch", Patch);
+glue_fn!(GluePut, "/api/glue_put", Put);
+
+fn call(sel: i64, s: String) -> Result<String, ServerFnError<Code>> {
+    use futures::executor::block_on;
+    match sel {
+        1 => block_on(GluePatch { s }.run_on_client()),
+        2 => block_on(GluePut { s }.run_on_client()),
+        _ => block_on(Glue { s }.run_on_client()),
     }
 }
-server_fn::inventory::submit! {
-    ServerFnTraitObj::new::<Glue>(|req| Box::pin(Glue::run_on_server(req)))
+fn route(sel: i64) -> (&'static str, &'static str) {
+    match sel {
+        1 => ("PATCH", GluePatch::PATH),
+        2 => ("PUT", GluePut::PATH),
+        _ => ("POST", Glue::PATH),
+    }
 }
 
 fn opt_bytes(s: &Sexp) -> Option<Vec<u8>> {
@@ -127,13 +150,14 @@ pub fn run(c: &Sexp) -> Sexp {
             };
             let _ = drain_hooks();
             let r = with_faults(Faults { canned: Some(wire), ..Default::default() }, || {
-                futures::executor::block_on(Glue { s: text(c.at(1)) }.run_on_client())
+                call(c.at(6).num(), text(c.at(1)))
             });
             Lst(vec![result_sexp(&r), drain_hooks()])
         }
         // server glue on a raw request
         8 => {
-            let mut b = http::Request::builder().method("POST").uri(Glue::PATH);
+            let (method, path) = route(c.at(4).num());
+            let mut b = http::Request::builder().method(method).uri(path);
             if let Some(a) = opt_bytes(c.at(2)) {
                 b = b.header("accept", http::HeaderValue::from_bytes(&a).unwrap());
             }
@@ -161,7 +185,7 @@ pub fn run(c: &Sexp) -> Sexp {
         9 => {
             let s = text(c.at(1));
             let _ = drain_hooks();
-            let remote = futures::executor::block_on(Glue { s: s.clone() }.run_on_client());
+            let remote = call(c.at(2).num(), s.clone());
             let hooks = drain_hooks();
             let direct = demo_body(&s);
             Lst(vec![result_sexp(&remote), hooks, result_sexp(&direct)])
